@@ -57,6 +57,12 @@ def open_config(ctx) -> None:
     w = f.where(op.call)
     in_loop = fv.cfg.enclosing_loops(wr.node)
     ctx.rep.check(not in_loop and fv.cfg.postdominates(wr.node, op.node), rule, c + "/single-write", "one write on every path after open", "write() is conditional or inside a loop", where=f.where(wr.call))
+    # every call of save() that returns normally has (re)written the file: no return before the open()
+    early = [n for n in fv.cfg.nodes if n.kind == "stmt" and isinstance(n.ast, ast.Return) and not fv.cfg.dominates(op.node, n.id)]
+    implicit_ok = fv.cfg.dominates(op.node, fv.cfg.exit) if not early else False
+    ctx.rep.check(not early and implicit_ok, rule, c + "/always-writes", "save() writes the file on every path that returns",
+                  f"`{stmt_key(early[0].ast)[:40] if early else 'a path'}` leaves save() without writing: the file keeps whatever a previous run left in it "
+                  "(stale records / other line breaks) although save() reported success", where=f.where(early[0].ast) if early else w)
     # mode
     mode_e = op.call.args[1] if len(op.call.args) > 1 else kwarg(op.call, "mode")
     mode_t = fv.res.resolve(mode_e, op.node) if mode_e is not None else ast.Constant(value="r")
